@@ -1420,7 +1420,10 @@ void Interpret::getInterpolants(const ASTNode& n)
     if (!config.produce_inter())
         throw ApiException("Cannot interpolate");
 
-    assert(groups.size() >= 2);
+    if (groups.size() < 2) {
+        notify_formatted(true, "get-interpolants needs at least two groups");
+        return;
+    }
     std::vector<ipartitions_t> partitionings;
     ipartitions_t p = 0;
     // All assertions with the given term belong to the group: their clauses are the same
